@@ -200,6 +200,78 @@ def build_repo():
         return time.time() - t0
 
 
+def build_repo_san():
+    """a second build of /repo's working tree with AddressSanitizer + UBSan (thorough tiers of C12/C13): wbprobe_san"""
+    bdir = os.path.join(WORK, "build_san")
+    with Lock("repo_san"):
+        t0 = time.time()
+        flags = "-fsanitize=address,undefined -fno-sanitize-recover=undefined -fno-omit-frame-pointer"
+        if not os.path.exists(os.path.join(bdir, "build.ninja")):
+            os.makedirs(bdir, exist_ok=True)
+            cmd = ("cmake -G Ninja -S %s -B %s -DCMAKE_BUILD_TYPE=RelWithDebInfo "
+                   "-DCMAKE_CXX_FLAGS='-D%s -Wno-error %s' -DCMAKE_CXX_FLAGS_RELWITHDEBINFO='-O1 -g -DNDEBUG' "
+                   "-DCMAKE_EXE_LINKER_FLAGS='-fsanitize=address,undefined' "
+                   "-DWB_ENABLE_TESTS=OFF -DWB_ENABLE_PYTHON=OFF -DWB_MAKE_FORTRAN_WRAPPER=OFF -DWB_UNITY_BUILD=OFF"
+                   % (REPO, bdir, GUARD, flags))
+            rc, o, e = sh(cmd, timeout=600)
+            if rc != 0:
+                raise BuildError("cmake configure (sanitizers) failed:\n" + (o + e)[-3000:])
+        rc, o, e = sh("ninja -C %s -j%s WorldBuilder" % (bdir, NPROC), timeout=3000)
+        if rc != 0:
+            raise BuildError("/repo does not build with sanitizers:\n" + (o + e)[-4000:])
+        lib = os.path.join(bdir, "lib", "libWorldBuilder.a")
+        probe = os.path.join(WORK, "wbprobe_san")
+        src = os.path.join(VERIF, "harness", "wbprobe.cc")
+        if newer(lib, probe) or newer(src, probe):
+            cmd = ("g++ -O1 -g -std=c++14 %s -D%s -I%s/include -I%s/include -I%s %s -Wl,--whole-archive %s -Wl,--no-whole-archive -lz -lpthread -o %s.tmp && mv %s.tmp %s"
+                   % (flags, GUARD, REPO, bdir, REPO, src, lib, probe, probe, probe))
+            rc, o, e = sh(cmd, timeout=900)
+            if rc != 0:
+                raise BuildError("harness does not compile with sanitizers:\n" + (o + e)[-4000:])
+        return time.time() - t0
+
+
+def run_probe_resilient(setup_lines, query_lines, exe="wbprobe", timeout=300, cwd=None):
+    """answers for query_lines (after setup_lines); a query that kills or hangs the harness is answered 'crash ...' /
+    'hang' and the remaining queries are run in a fresh process.  Returns (setup answers, query answers, stderr tails)."""
+    probe = os.path.join(WORK, exe)
+    env = dict(os.environ, ASAN_OPTIONS="detect_leaks=0:abort_on_error=0", UBSAN_OPTIONS="print_stacktrace=1")
+    out = [None] * len(query_lines)
+    errs = {}
+    start = 0
+    setup_ans = None
+    while start < len(query_lines):
+        lines = setup_lines + query_lines[start:]
+        try:
+            p = subprocess.run([probe], input="\n".join(lines) + "\n", capture_output=True, text=True, timeout=timeout, cwd=cwd, env=env)
+            ans = parse_answers(p.stdout)
+            rc, err = p.returncode, p.stderr
+            hung = False
+        except subprocess.TimeoutExpired as ex:
+            ans = parse_answers(ex.stdout.decode() if isinstance(ex.stdout, bytes) else (ex.stdout or ""))
+            rc, err, hung = -9, "", True
+        if setup_ans is None:
+            setup_ans = ans[:len(setup_lines)] + ["crash"] * max(0, len(setup_lines) - len(ans))
+        got = ans[len(setup_lines):]
+        if len(ans) < len(setup_lines):
+            # the setup itself dies: every remaining query is a crash of the setup
+            for k in range(start, len(query_lines)):
+                out[k] = "crash-in-setup rc=%d" % rc
+            errs[start] = err[-1500:]
+            break
+        for k, a in enumerate(got):
+            out[start + k] = a
+        if len(got) == len(query_lines) - start:
+            if rc != 0:
+                errs[len(query_lines) - 1] = err[-1500:]
+            break
+        bad = start + len(got)
+        out[bad] = "hang" if hung else "crash rc=%d" % rc
+        errs[bad] = err[-1500:]
+        start = bad + 1
+    return setup_ans or [], out, errs
+
+
 def parse_answers(text):
     out = []
     for line in text.splitlines():
